@@ -1204,9 +1204,13 @@ class Engine:
         for n in names:
             if n in h.env:
                 h.env[n] = fresh_like(h.env[n], n)
+                if h.env[n].kind == 'list':
+                    h.pc.append(h.env[n].a['length'] >= 0)        # a havoced list is still a list
         for f in fields:
             if f in h.fields:
                 h.fields[f] = fresh_like(h.fields[f], f)
+                if h.fields[f].kind == 'list':
+                    h.pc.append(h.fields[f].a['length'] >= 0)
         for g in extra_ghost:
             v = h.ghost[g]
             if isinstance(v, V):
